@@ -368,14 +368,17 @@ def _chunk_window(rng, L, span):
     return [cs, min(ce, L)]
 
 
-def make(kind, rng, mode=None):
-    """Draw a recipe. All randomness is consumed here; `recipe.build()` is deterministic."""
+def make(kind, rng, mode=None, spelling=None):
+    """Draw a recipe. All randomness is consumed here; `recipe.build()` is deterministic.
+    `spelling`: "e" = sequence types are given as SequenceType members, "s" = as plain strings ('chromosome'), None = draw."""
     if kind not in KINDS:
         raise KeyError(kind)
     mode = mode or rng.choice(MODES)
     L = rng.randint(60, 160)
     d = {"chrom": rng.choice(["chr1", "chrX", "seq_7"]), "genome": _genome(rng, L), "L": L,
          "enum_types": rng.random() < 0.7, "named": rng.random() < 0.9}
+    if spelling is not None:
+        d["enum_types"] = spelling == "e"
     share = rng.random() < 0.25
     d["share"] = share
     if kind in ("single", "compound", "parent"):
